@@ -15,6 +15,7 @@ use std::panic;
 mod probe_dual;
 mod probe_curves;
 mod probe_calendars;
+mod probe_linalg;
 
 fn js(s: &str) -> String {
     s.replace('\\', "\\\\").replace('"', "\\\"")
@@ -405,7 +406,7 @@ fn main() {
         }
         "probe" => {
             let func = args.get(2).map(|s| s.as_str()).unwrap_or("");
-            let found = probe_dateroll(func) || probe_months(func) || probe_dual::probe(func) || probe_curves::probe(func) || probe_calendars::probe(func);
+            let found = probe_dateroll(func) || probe_months(func) || probe_dual::probe(func) || probe_curves::probe(func) || probe_calendars::probe(func) || probe_linalg::probe(func);
             if !found {
                 println!("{{\"probe\":\"{}\",\"result\":\"no failing input found\"}}", func);
             }
